@@ -57,6 +57,10 @@ def decompress():
 
             def on_next(i):
                 try:
+                    if decompressor.eof and len(i) == 0:
+                        # nothing left to decode; the decompression object
+                        # accepts no more calls once its frame is complete
+                        return
                     data = decompressor.decompress(i)
                     observer.on_next(data)
                 except Exception as e:
